@@ -268,6 +268,11 @@ def replay_fold(cex):
     pats = [(list(mats[p].row), list(mats[p].col)) for p in mats]
     if not (pats[0] == pats[1] == pats[2]):
         bad.append("patterns of the three properties differ")
+    with contextlib.redirect_stdout(io.StringIO()):
+        Fn = np.asarray(h._calculate_N_N_array(sel_property="border_len", include_opposing_neighbours=False).toarray(), dtype=float)
+    An = np.asarray(FullStub()._calculate_N_N_array("border_len").toarray(), dtype=float)
+    if Fn.shape != (N, N) or not np.allclose(Fn, An[:N, :N]):
+        bad.append("nofold: include_opposing_neighbours=False is not the upper-left block")
     pres = {("%d_%d" % k): present(k) for k in order}
     return {"reproduced": bool(bad), "detail": f"full-sphere pattern (orbit: present) {pres}: {bad[:6]}"}
 
